@@ -121,6 +121,54 @@ def two_broker_items(tier):
     return out
 
 
+def other_zone(case):
+    """the broker is driven with tz-aware timestamps of a non-UTC zone whose wall-clock time lies inside the
+    exchange's hours (the exchange reads wall-clock time): the fill must be stamped with exactly that instant"""
+    import datetime
+    import pandas as pd
+    from qstrader.broker.simulated_broker import SimulatedBroker
+    from qstrader.exchange.simulated_exchange import SimulatedExchange
+    from qstrader.execution.order import Order
+    zone, month = case['zone'], case['month']
+    t0 = pd.Timestamp(datetime.datetime(2021, month, 14, 9, 0)).tz_localize(zone)
+    t1 = pd.Timestamp(datetime.datetime(2021, month, 14, 15, 0)).tz_localize(zone)
+    dh = bm.StubDataHandler()
+    dh.table = case['table']
+    b = SimulatedBroker(t0, SimulatedExchange(t0), dh, initial_funds=1000000.0, fee_model=bm.make_fee(tuple(case['fee'])))
+    b.create_portfolio('1')
+    b.subscribe_funds_to_portfolio('1', 500000.0)
+    seen = []
+    port = b.portfolios['1']
+    orig = port.transact_asset
+    port.transact_asset = lambda txn: (orig(txn), seen.append(txn))[0]
+    b.submit_order('1', Order(t0, case['asset'], case['qty'], order_id='z1'))
+    b.update(t1)
+    fails = []
+    c2 = dict(case, kind='zone')
+    if len(seen) != 1:
+        fails.append(dict(bm.fail('C05.no_fill_observed', {'fills': len(seen), 'zone': zone, 'update': str(t1)}), case=c2))
+    for t in seen:
+        if t.dt != t1 or t.dt.utcoffset() is None:
+            fails.append(dict(bm.fail('C05.timestamp', {'txn_dt': str(t.dt), 'update': str(t1), 'zone': zone}), case=c2))
+        q = bm.QUOTES[dh.table][t.asset]
+        want = bm.F(q[1] if t.quantity > 0 else q[0])
+        if not bm.close(t.price, want):
+            fails.append(dict(bm.fail('C05.price_side', {'price': t.price, 'quote': q, 'zone': zone}), case=c2))
+    for h in port.history:
+        if h.type == 'asset_transaction' and h.dt != t1:
+            fails.append(dict(bm.fail('C05.timestamp', {'history_dt': str(h.dt), 'update': str(t1), 'zone': zone}), case=c2))
+    return {'viols': fails[:3], 'execs': 1, 'evals': 1, 'nontrivial': True, 'outcome': ('zone', zone, month, case['asset'], case['qty'])}
+
+
+def zone_items():
+    out = []
+    for zone in ('Europe/London', 'America/New_York', 'Asia/Tokyo', 'UTC'):
+        for month in (1, 7):                       # winter and summer time
+            for asset, qty in (('A', 7), ('Bq', -100)):
+                out.append({'zone': zone, 'month': month, 'asset': asset, 'qty': qty, 'table': 0, 'fee': ['pct', '0.001', '0.0025']})
+    return out
+
+
 def point(case):
     m, fails, txns = evaluate(case)
     own = [dict(f, case=case) for f in fails if f['clause'].startswith('C05.')]
@@ -144,9 +192,12 @@ def run(tier, res, is_known):
     ]
     product(point, its, res, is_known, label='fills', sample_every=997)
     product(two_brokers, two_broker_items(tier), res, is_known, label='two live brokers, alternating')
+    product(other_zone, zone_items(), res, is_known, label='update times in other time zones')
 
 
 def replay(case):
+    if case.get('kind') == 'zone':
+        return other_zone({k: v for k, v in case.items() if k != 'kind'})['viols']
     if case.get('kind') == 'two_brokers':
         c = {k: v for k, v in case.items() if k != 'kind'}
         return two_brokers(c)['viols']
